@@ -110,6 +110,8 @@ def run(out, tier, seed):
                        % (len(s2), len(s3), desc))
     samples = []
     for o in vlib.read_ndjson(obs):
+        if o.get("outcome") == "notrun":
+            continue
         if o.get("outcome") in ("hang", "abort", "harness_panic"):
             out.fail("NEW", "worker %s during a multi-build schedule" % o.get("outcome"), o, family="worker " + str(o.get("outcome")))
         if len(samples) < 4 and o.get("case", 0) % 997 == 0 and "runs" in o:
